@@ -190,6 +190,7 @@ func cmdCheck(argv []string) int {
 			allObls = append(allObls, ctx.coverObligations()...)
 			allObls = append(allObls, eng.ownObligations(fn, fc, ctx)...)
 			allObls = append(allObls, eng.dependsObligations(fn, fc, ctx)...)
+			allObls = append(allObls, eng.lendObligations(fn, fc, ctx)...)
 			if fc.OwnsLists {
 				trusted["ownership assumed (owns-lists): "+n+" appends to lists held in the maps it is building; assumed exclusively owned"] = true
 			}
